@@ -12,6 +12,9 @@ void h_put_get(void)
   __CPROVER_assume(in_store && in_bytes && in_len <= 16 && in_store->chunks_.n <= 1 && !in_store->persistent_enabled_);
   __CPROVER_assume(in_store->config_.default_chunk_ttl >= 1 && in_store->config_.default_chunk_ttl <= 86400 && in_ttl <= 1000000000l && in_ttl >= -1000000000l);
   in_store->chunks_.e[0].second.persisted = 0;
+  /* type invariant of the store: the list of expiries still to be reported is a valid vector (here: empty) */
+  static arr_u8_32 pending_ids[2]; uint64_t in_pending = 0;   /* (with a symbolic non-empty list no SMT back end finishes; the list is only compacted by put and not read by the clauses below) */
+  in_store->expired_unreported_.p = pending_ids; in_store->expired_unreported_.n = in_pending; in_store->expired_unreported_.cap = 2;
   int64_t t_put;   /* the clock reading put() will see */
   __CPROVER_assume(t_put >= 0 && t_put <= 4000000000000000000l);
   __g_clock_steady = t_put; __g_clock_fixed = 1;
